@@ -554,12 +554,12 @@ def draw_examples(strategy, n, seed):
 
     def t(c):
         k = digest(c)
-        if k not in seen and len(out) < n:
+        if k not in seen:
             seen.add(k)
             out.append(c)
         return []
-    hyp_search(t, strategy, seed, n * 3, shrink=False)
-    return out[:n]
+    hyp_search(t, strategy, seed, n * 3 + 3, shrink=False)
+    return out[-n:]      # not the first ones: Hypothesis starts every run with the same all-minimal value
 
 
 # ---------------------------------------------------------------------------------------------------------------------
